@@ -72,7 +72,7 @@ def compare(pid, case, mline, iline):
 
 
 FIXED_SEEN = []
-FIXED_EXPECTED = "fixed slotref A:outer_nonempty=1,inner_empty=1 B:inner_empty=1,outer_empty=1,copy_empty=0"
+FIXED_EXPECTED = "fixed slotref A:outer_nonempty=1,inner_empty=1 B:inner_empty=1,outer_empty=1,copy_empty=0 C:inner_empty=1,outer_empty=1 D:outer2_empty=1"
 
 
 def build_and_run(cases, workdir, variant="asan"):
@@ -235,6 +235,18 @@ def run(pid, args):
         v.violation("expr-%d" % len(seen), {"property": pid, "term": repr(c.term), "rv": c.rv, "kinds": c.kinds, "vals": c.vals,
                                             "cpp": gen_expr.to_cpp(c.term), "model": m, "impl": il, "diff": d, "proof_problems": problems,
                                             "broken": "correspondence AdaptorModel vs library on a generated expression"})
+    if pid == "C09" and not args.replay:
+        # slots stored inside / referred to by other slots: NestModel against the library
+        from checks.nestpart import nest_part
+        from vlib.common import driver_build
+        nexe, nerr = driver_build([os.path.join(VERIF, "harness", "driver.cc"), os.path.join(VERIF, "harness", "probe.cc")], "asan")
+        if nexe:
+            _added, machinery = nest_part(v, pid, tier, seed, nexe, model_exe, scale=1.0 if proof_ok else 2.0)
+            if machinery:
+                v.finish()
+                return 2
+        else:
+            v.violation("harness-build", {"property": pid, "broken": "correspondence harness does not compile against /repo working tree", "compiler_output": (nerr or "")[-4000:]}, no_input=True)
     if not proof_ok and not v.violations:
         v.violation("proof", {"property": pid, "broken": problems, "tables": v.coverage["translator"]}, no_input=True)
     return v.finish()
